@@ -5,6 +5,7 @@ import (
 	"go/constant"
 	"go/token"
 	"go/types"
+	"regexp"
 	"strings"
 
 	"golang.org/x/tools/go/ssa"
@@ -815,6 +816,8 @@ func (P *Prog) checkProviderTagTable(r *Result) {
 	r.floor("C10/provider-tag-table", 8)
 }
 
+var ownFieldPath = regexp.MustCompile(`^recv(\.[A-Za-z_][A-Za-z0-9_]*)+$`)
+
 // checkGetByFieldAgreement: sibling cross-check of the GetByField implementations.
 func (P *Prog) checkGetByFieldAgreement(r *Result, rule string) {
 	for _, fn := range P.Funcs {
@@ -864,7 +867,9 @@ func (P *Prog) checkGetByFieldAgreement(r *Result, rule string) {
 			}
 			key := p.ret[i:k]
 			tag := p.ret[j : k-1]
-			if tag != "recv.tag" && !strings.HasPrefix(tag, "&@") {
+			// the provider's own tag: a *string field of the receiver (possibly inside an embedded
+			// resolver struct, `recv.keys.tag`), or the address of the front-end's package-level tag
+			if !ownFieldPath.MatchString(tag) && !strings.HasPrefix(tag, "&@") {
 				tagOK = false
 			}
 			if p.ret != "("+getName+"(recv, "+key+"), "+key+")" {
@@ -1277,6 +1282,75 @@ func allocHolds(b, v ssa.Value) bool {
 	return len(sts) == 1 && sts[0].Val == v
 }
 
+// freshPooled: v is an object that was just taken from a sync.Pool (or allocated) and has not been
+// handed out yet: the result of Pool.Get (asserted), a fresh allocation, the result of a module function
+// that returns such an object (or returns the parameter it was given one in), or a parameter of an
+// unexported function that only runs from call sites passing one.
+func (P *Prog) freshPooled(v ssa.Value, depth int) bool {
+	if depth > 4 || v == nil {
+		return false
+	}
+	switch x := cv(v).(type) {
+	case *ssa.TypeAssert:
+		if c, ok := cv(x.X).(*ssa.Call); ok && isSyncPoolMethod(callOf(c), "Get") {
+			return true
+		}
+	case *ssa.Alloc:
+		return x.Heap
+	case *ssa.Call:
+		g := callOf(x).static
+		if g == nil || g.Blocks == nil || !inModule(funcPkgPath(g)) || g.Signature.Results().Len() != 1 {
+			return false
+		}
+		n, all := 0, true
+		eachInstr(g, func(_ *ssa.BasicBlock, _ int, in ssa.Instruction) {
+			rt, ok := in.(*ssa.Return)
+			if !ok {
+				return
+			}
+			vals, ok := retVals(rt)
+			if !ok || len(vals) != 1 {
+				return
+			}
+			n++
+			rv := cv(vals[0])
+			if prm, isP := rv.(*ssa.Parameter); isP {
+				// returns what it was given: fresh when the argument of this call is
+				for i, q := range g.Params {
+					if q == prm && i < len(x.Call.Args) && P.freshPooled(x.Call.Args[i], depth+1) {
+						return
+					}
+				}
+				all = false
+				return
+			}
+			if !P.freshPooled(rv, depth+1) {
+				all = false
+			}
+		})
+		return n > 0 && all
+	case *ssa.Parameter:
+		g := x.Parent()
+		sites, closed := P.closedCallSites(g)
+		if !closed || len(sites) == 0 {
+			return false
+		}
+		idx := -1
+		for i, q := range g.Params {
+			if q == x {
+				idx = i
+			}
+		}
+		for _, site := range sites {
+			if idx < 0 || idx >= len(site.Common().Args) || !P.freshPooled(site.Common().Args[idx], depth+1) {
+				return false
+			}
+		}
+		return true
+	}
+	return false
+}
+
 // checkPathWriters: an issue's Path is written only when the issue is built
 // (the issue constructors and the SetPath setter), never later on its way to
 // the collection.
@@ -1299,8 +1373,13 @@ func (P *Prog) checkPathWriters(r *Result) {
 			}
 			n++
 			c := fmt.Sprintf("%s#Path@%d", fname(fn), n)
+			base, _ := fieldVar(st.Addr)
 			if allowed[fname(fn)] || fn.Synthetic != "" {
 				r.ok("C10/path-writers", c, P.ipos(in), "path written while the issue is being built")
+			} else if P.freshPooled(base, 0) {
+				// a constructor under another name (`newIssue`, a pooled object's `reset`): the issue written to
+				// has just been taken from the pool on every way into this function
+				r.ok("C10/path-writers", c, P.ipos(in), "path written to an issue that was just taken from the pool (it is being built)")
 			} else {
 				r.bad("C10/path-writers", c, P.ipos(in), "an issue's Path is rewritten outside the issue constructors: the key it is filed under no longer is the path of the node that produced it")
 			}
